@@ -69,6 +69,19 @@ class ToolError(Exception):
     pass
 
 
+XPATH_FILTER = 'http://www.w3.org/TR/1999/REC-xpath-19991116'
+_XP_STEP = r'ancestor-or-self::(?:[A-Za-z_][\w.-]*:)?([A-Za-z_][\w.-]*)'
+
+
+def _xpath_filter_names(expr):
+    """The filter expressions the model knows: not(ancestor-or-self::p:Name [or ancestor-or-self::p:Other ...]) --
+    "everything but the subtrees of these elements".  (Prefixes are not resolved: elements are matched by local name.)
+    Any other expression is refused, as is any other transform the model does not know."""
+    if not re.match(r'^\s*not\(\s*%s(\s+or\s+%s)*\s*\)\s*$' % (_XP_STEP, _XP_STEP), expr):
+        raise ToolError('unsupported XPath filter %r' % expr)
+    return re.findall(_XP_STEP, expr)
+
+
 # ------------------------------------------------------------------ mini DOM
 class Node(object):
     __slots__ = ('ns', 'tag', 'attrs', 'kids', 'parent', 'start', 'end',
@@ -207,20 +220,23 @@ def _esc_a(s):
             .replace('\t', '&#x9;').replace('\n', '&#xA;').replace('\r', '&#xD;'))
 
 
-def canon(n, exclude=None, out=None):
-    """Context-free canonical text of the subtree at n without the subtree `exclude`."""
+def canon(n, exclude=None, out=None, drop=()):
+    """Context-free canonical text of the subtree at n without the subtree `exclude` and without
+    the subtrees of elements whose local name is in `drop` (XPath filter transform, T8)."""
     top = out is None
     if top:
         out = []
+        if n.tag in drop:
+            return b''
     out.append('<{%s}%s' % (n.ns, n.tag))
     for (ans, aname) in sorted(n.attrs):
         out.append(' {%s}%s="%s"' % (ans, aname, _esc_a(n.attrs[(ans, aname)])))
     out.append('>')
     for k in n.kids:
         if isinstance(k, Node):
-            if k is exclude:
+            if k is exclude or k.tag in drop:
                 continue
-            canon(k, exclude, out)
+            canon(k, exclude, out, drop)
         else:
             out.append(_esc_t(k))
     out.append('</>')
@@ -391,12 +407,17 @@ def _references(sig, root, reg, info):
         else:
             raise ToolError('reference uri kind disabled: %s' % uri)
         enveloped = False
+        drop = ()
         tr = r.find(DS, 'Transforms')
         if tr is not None:
             for t in tr.findall(DS, 'Transform'):
                 alg = t.attrs.get(('', 'Algorithm'))
                 if alg == ENVELOPED:
                     enveloped = True
+                elif alg == XPATH_FILTER:
+                    # T8: the XPath filter transform narrows the node set that is digested
+                    xp = t.find(DS, 'XPath')
+                    drop = tuple(drop) + tuple(_xpath_filter_names(xp.text() if xp is not None else ''))
                 elif alg in (EXC_C14N, EXC_C14N + 'WithComments',
                              'http://www.w3.org/TR/2001/REC-xml-c14n-20010315'):
                     pass
@@ -414,10 +435,10 @@ def _references(sig, root, reg, info):
             # the referenced node set: nothing is left of a target that lies inside it
             octets = b''
         else:
-            octets = canon(target, sig if enveloped else None)
+            octets = canon(target, sig if enveloped else None, drop=drop)
         digest = hashlib.new(DIGESTS[alg], octets).digest()
         out.append((r, dv, digest))
-        info['refs'].append({'uri': uri, 'target': target.path(), 'enveloped': enveloped})
+        info['refs'].append({'uri': uri, 'target': target.path(), 'enveloped': enveloped, 'filtered': sorted(drop)})
     return si, out
 
 
